@@ -283,6 +283,41 @@ pub fn run(args: &Args) -> Report {
             }
         }
 
+        // C2. every BMP scalar value (U+0000..U+FFFF without the surrogates), as a \uXXXX escape
+        //     (quick: lower-case hex, content and one tag string; thorough: also literal and upper-case),
+        //     and the astral planes with a stride
+        {
+            let mut n = 0u64;
+            for c in 0u32..=0xFFFF {
+                let ch = match char::from_u32(c) {
+                    Some(ch) => ch,
+                    None => continue,
+                };
+                let mut e = e2.clone();
+                e.content = format!("{ch}");
+                e.tags = vec![vec!["t".into(), format!("x{ch}")]];
+                let modes: &[Esc] = if thorough { &[Esc::AllULower, Esc::AllUUpper, Esc::Minimal] } else { &[Esc::AllULower] };
+                for esc in modes {
+                    let mut r = EvRender::plain();
+                    r.esc = *esc;
+                    in_domain_case(&mut rep, &mut rng, &e, &r, "escape", c % 2 == 0);
+                    n += 1;
+                }
+            }
+            let stride = if thorough { 0x101 } else { 0x1001 };
+            let mut c = 0x10000u32;
+            while c <= 0x10FFFF {
+                if let Some(ch) = char::from_u32(c) {
+                    let mut e = e2.clone();
+                    e.content = format!("{ch}{ch}");
+                    in_domain_case(&mut rep, &mut rng, &e, &EvRender::plain(), "escape", true);
+                    n += 1;
+                }
+                c += stride;
+            }
+            rep.count_n("scalar_sweep_cases", n);
+        }
+
         // D. hex digits of both cases in both nibble positions
         for round in 0..4u8 {
             let mut e = e1.clone();
